@@ -142,9 +142,6 @@ class DictProxy(dict):
         if other is None or not isinstance(other, dict):
             return False
 
-        if isinstance(other, DictProxy):
-            return self._is_compatible_proxy(other) and super().__eq__(other)
-
         return super().__eq__(other)
 
 
